@@ -24,11 +24,12 @@ pub fn collect_features(
     access_model: Arc<dyn AccessModel>,
 ) -> Result<Vec<(String, StateFeature)>, StateModelError> {
     // prepare the set of features for this state model
-    let model_features = traversal_model
+    let declared_features = traversal_model
         .state_features()
         .into_iter()
         .chain(access_model.state_features())
-        .collect::<HashMap<_, _>>();
+        .collect_vec();
+    let model_features = declared_features.iter().cloned().collect::<HashMap<_, _>>();
     // build the state model. inject state features from the traversal and access models
     // and then allow the user to optionally override any initial conditions for those
     // state features.
@@ -52,7 +53,17 @@ pub fn collect_features(
             Some(_) => Ok((name, feature)),
         })
         .collect::<Result<Vec<_>, _>>()?;
-    let mut added_features: Vec<(String, StateFeature)> = model_features.into_iter().collect_vec();
+    // keep the order in which the models declare their features (a HashMap would hand them out
+    // in a different order for every query, and with it the layout of the state vector); a name
+    // declared twice keeps its first position and, as before, its last definition
+    let mut added_features: Vec<(String, StateFeature)> = vec![];
+    for (name, _) in declared_features.iter() {
+        if added_features.iter().all(|(n, _)| n != name) {
+            if let Some(feature) = model_features.get(name) {
+                added_features.push((name.clone(), feature.clone()));
+            }
+        }
+    }
     added_features.extend(user_features);
     Ok(added_features)
 }
